@@ -22,7 +22,10 @@ pub fn load_corpus(dir: &str) -> Result<(Vec<(String, usize)>, Vec<Vec<u8>>), St
     let mut blobs: Vec<Vec<u8>> = vec![];
     let mut by_hash: BTreeMap<String, usize> = BTreeMap::new();
     let mut paths = vec![];
-    for line in idx.lines() {
+    for (n, line) in idx.lines().enumerate() {
+        if cfg!(miri) && n % 100 != 0 {
+            continue; // file I/O is very slow under the interpreter: every 100th path is enough for a slice
+        }
         let (p, h) = line.split_once('\t').ok_or("bad index line")?;
         let k = match by_hash.get(h) {
             Some(&k) => k,
@@ -421,7 +424,7 @@ pub fn run(ctx: &Ctx) -> Report {
         }
     };
     let mut cfg = ZoneCfg::lookup();
-    cfg.max_transitions = 300;
+    cfg.max_transitions = if ctx.scale < 1.0 { 10 } else { 300 };
     cfg.extreme_offsets = true;
     // wl 1: generated zones in three versions
     run_cases(ctx, &mut rep, 1, ctx.n(20_000, 400_000), |l, rng, i| {
